@@ -6,4 +6,4 @@ Require Import ExtrOcamlBasic.
 Extraction "../ocaml/gen/ex_c20.ml" new_msg add_sig add_sigs encrypt_msg export_pkts export_pkts_prefix export_bytes emit_pkts
   parse_pkts import_pkts import_bytes in_grammar flags_ok ops_flags toks unwrap is_message ops_flags_ok
   lit_body lit_parse ops_body ops_parse rfc_lit_dec rfc_ops_dec frame frame_old frame_partial
-  utf8 contents sig_peek insort new_text Z.add Z.mul.
+  utf8 utf8_decode contents contents_prefix sig_peek insort new_text Z.add Z.mul.
